@@ -81,6 +81,10 @@ func c13Child(run *evid.Run, batch, nb int, j *Journal) {
 	for i := batch; i < nStress/3 && !evid.IsSaturated(); i += nb {
 		c13Bounded(run, i, j)
 	}
+	// bounded merges with bounds that cannot cut off an append: no append may be lost
+	for i := batch; i < nStress/2 && !evid.IsSaturated(); i += nb {
+		c13BoundedAppends(run, i, j)
+	}
 }
 
 // guardedScene builds a scene; sequential set-up operations that never return (every library goroutine in a
@@ -352,3 +356,81 @@ func c13Bounded(run *evid.Run, i int, j *Journal) {
 var _ = hx.Short
 
 func intp(n int) *int { return &n }
+
+// c13BoundedAppends: appends and size-bounded merges of frozen sources on one shared log, with bounds that are
+// never smaller than everything the log can hold in the run - the merges take the size-bounded code path
+// (linearise, rebuild index and heads from the window) but can never legitimately cut anything off: after the run
+// every successful append must be in the log, exactly once. (A merge that installs a stale window loses one.)
+func c13BoundedAppends(run *evid.Run, i int, j *Journal) {
+	rng := rand.New(rand.NewSource(run.Seed*2654435 + int64(i)))
+	label := fmt.Sprintf("bounded merges that cannot cut off an append #%d", i)
+	s := guardedScene(run, label, func() *scene { return newScene(run.Seed, 700000+i, 3, rng) })
+	if s == nil {
+		return
+	}
+	j.Log(map[string]any{"scenario": label})
+	const workers, perWorker = 3, 5
+	// bounds: never below everything the log can ever hold in this run (initial entries, all sources, all appends)
+	everything := len(s.initSet) + workers*perWorker
+	for _, ss := range s.srcSets {
+		everything += len(ss)
+	}
+	var mu sync.Mutex
+	var appended []*model.E
+	var trace []string
+	p := newPlan(uint64(run.Seed)*77+uint64(i), i%3 != 0, map[*ipfslog.IPFSLog]string{s.L: "L"})
+	activePlan.Store(p)
+	done := runWorkers(workers, func(g int) {
+		r := rand.New(rand.NewSource(int64(i*31 + g)))
+		for n := 0; n < perWorker; n++ {
+			if r.Intn(2) == 0 {
+				e, err := s.L.Append(s.w.Ctx, []byte(fmt.Sprintf("ba-%d-%d-%d", i, g, n)), nil)
+				mu.Lock()
+				if err != nil {
+					trace = append(trace, fmt.Sprintf("g%d append FAILED %v", g, err))
+				} else {
+					m := hx.ToModel(e)
+					appended = append(appended, m)
+					trace = append(trace, fmt.Sprintf("g%d append -> %s t=%d", g, hx.Short(m.Hash), m.Time))
+				}
+				mu.Unlock()
+			} else {
+				k, size := r.Intn(len(s.srcs)), everything+r.Intn(6)
+				_, err := s.L.Join(s.srcs[k], size)
+				mu.Lock()
+				trace = append(trace, fmt.Sprintf("g%d Join(src%d, %d) err=%v", g, k, size, err))
+				mu.Unlock()
+			}
+		}
+	})
+	ok, dead, dump := waitAll(done, p, 60*time.Second)
+	activePlan.Store(nil)
+	run.Eval(1)
+	run.Count("bounded_merge_histories_with_surviving_appends", 1)
+	wit := func() map[string]any {
+		return map[string]any{"scenario": label, "seed": run.Seed, "completed_ops_in_completion_order": trace, "hook_trace_tail": tail(p.traceCopy(), 60)}
+	}
+	if !ok {
+		if dead {
+			w := wit()
+			w["blocked_goroutines"] = dump
+			run.Violate("C13/deadlock", det("regime", "bounded-appends"), w, "deadlock in %s", label)
+		} else {
+			run.Inconclusive("watchdog fired without a deadlock state: " + label)
+		}
+		return
+	}
+	fin := hx.Observe(s.L)
+	cnt := map[string]int{}
+	for _, v := range fin.Values {
+		cnt[v]++
+	}
+	for _, a := range appended {
+		if _, held := fin.Set[a.Hash]; !held || cnt[a.Hash] != 1 {
+			run.Violate("C13/append-not-exactly-once", det("regime", "bounded merges with bounds above everything the log can hold", "count", cnt[a.Hash]), wit(),
+				"an append that returned %s (clock time %d) is %d times in the values afterwards (held: %v) although every merge of the run had a bound larger than everything the log could hold", hx.Short(a.Hash), a.Time, cnt[a.Hash], held)
+			return
+		}
+	}
+	run.NonTrivial("bounded-appends/" + model.DigestSeq(p.traceCopy()))
+}
